@@ -310,6 +310,17 @@ pub fn generate(w: &mut dyn Write, seed: u64, thorough: bool) {
                 for segs in cuts(&mut rng, &wire, 40, per) {
                     crate::emit_case(w, &["vmbody".to_string(), opt.to_string(), sec.to_string(), peer.to_string(), hex(&sess), ops("D", &segs), format!("@x={}", hex(&writes.concat()))], exec);
                 }
+                // tiny writes: chunks shorter than a size field / tag; every two-cut and byte-by-byte
+                let tiny: Vec<Vec<u8>> = [1usize, 1, 2, 15, 16, 17, 18, 1].iter().map(|&l| rng.bytes(l)).collect();
+                let tops: Vec<String> = tiny.iter().map(|x| format!("E{}", hex(x))).collect();
+                let ta = vec!["vmbody".to_string(), opt.to_string(), sec.to_string(), role.to_string(), hex(&sess), tops.join(";")];
+                let tfa: Vec<&str> = ta.iter().map(|s| s.as_str()).collect();
+                let twire: Vec<u8> = outputs(&exec(&tfa)[0]).concat();
+                let mut tcuts: Vec<Vec<Vec<u8>>> = (1..twire.len()).step_by(if thorough { 1 } else { 2 }).map(|c| vec![twire[..c].to_vec(), twire[c..].to_vec()]).collect();
+                tcuts.push(twire.iter().map(|b| vec![*b]).collect());
+                for segs in tcuts {
+                    crate::emit_case(w, &["vmbody".to_string(), opt.to_string(), sec.to_string(), peer.to_string(), hex(&sess), ops("D", &segs), format!("@x={}", hex(&tiny.concat()))], exec);
+                }
                 // packet mode: sizes around every limit; each packet one chunk
                 let sizes: &[usize] = if thorough { &[0, 1, 100, 1400, 1993, 2047, 2048, 2049, 8192, 65456, 65457, 65507] } else { &[0, 1, 1400, 2049, 65456, 65457] };
                 let pk: Vec<Vec<u8>> = sizes.iter().map(|&n| rng.bytes(n)).collect();
